@@ -7,6 +7,7 @@ FACTS = [("QuartzModel.Theorems.Facts", t) for t in [
 ODO = [("QuartzModel.Proofs.Odometer", t) for t in ["Odo.findForward_spec", "Odo.loop_fuel", "Odo.μ6_measure"]]
 
 THEOREMS = {
+    "C14": [],
     "C03": [], "C04": [], "C08": [], "C09": [],
     "C11": [("QuartzModel.Theorems.C11", "Queue." + t) for t in [
         "hpush_perm", "hpush_heap", "hpop_spec", "hpop_empty", "hremove_spec", "heap_root_min",
